@@ -34,9 +34,9 @@ def gen_case(seed):
 
     rnd = random.Random(seed)
     kind = rnd.choice(["fan", "fan", "fan", "resume", "sync"]) if seed % 7 else "sync"
-    fam = rnd.choice(["fan", "fan", "fan", "collect", "collect", "wait", "catch", "equalfan", "collect2"])
+    fam = rnd.choice(["fan", "fan", "fan", "collect", "collect", "wait", "catch", "equalfan", "collect2", "syncfan"])
     spec = {"fan": lambda r: gen.gen_fan(r, hitl=False), "collect": gen.gen_collect, "wait": gen.gen_wait, "catch": gen.gen_catch,
-            "equalfan": gen.gen_equalfan, "collect2": gen.gen_collect2}[fam](rnd)
+            "equalfan": gen.gen_equalfan, "collect2": gen.gen_collect2, "syncfan": gen.gen_syncfan}[fam](rnd)
     spec["sched_seed"] = seed
     spec["family"] = fam
     return {"kind": kind, "seed": seed, "spec": spec, "snap_at": rnd.randint(2, 25)}
